@@ -53,6 +53,7 @@ def tasks(tier, seed, deepest=True):
         T.append((3, 2, 2, 'pfasst_burnin', True, True, 1, {'short': True}))
         T.append((2, 2, 2, 'fine_only', False, False, 1, {'short': True}))
         T.append((2, 2, 2, 'pfasst_burnin', True, False, 2, None))
+        T.append((2, 3, 2, None, True, False, 2, None))  # two sweeps on the middle level on the way down
         T.append((2, 1, 2, None, True, False, 1, {'force_done': True, 'force_continue': False}))
         T.append((2, 1, 2, None, True, False, 1, {'force_done': False, 'force_continue': True, 'fc_until': 1}))
         T.append((2, 2, 2, 'pfasst_burnin', True, True, 1, {'force_done': True, 'force_continue': False}))
